@@ -129,6 +129,10 @@ async def quiesce(limit=100000):
     raise RuntimeError("event loop does not become quiescent")
 
 
+def _base(label):
+    return label.rsplit("#", 1)[0]
+
+
 class ConformanceFailure(Exception):
     def __init__(self, step, real, expected, schedule):
         super().__init__(f"step {step}: pending awaitables {sorted(real)} but the specification allows exactly {sorted(expected)}")
@@ -143,9 +147,11 @@ async def drive(coro_factory, schedule, expected_pending):
         for step, label in enumerate(schedule):
             await quiesce()
             real = {l for l, f in G.pending.items() if not f.done()}     # a gate cancelled by the code is no longer pending
-            if real != set(expected_pending[step]):
+            # awaitables with the same kind, key and observed text/data are interchangeable: which of them is "#1" depends on the start order,
+            # so pending sets are compared as multisets of bases and the completed one is any pending awaitable with the chosen base
+            if sorted(_base(l) for l in real) != sorted(_base(l) for l in expected_pending[step]):
                 raise ConformanceFailure(step, real, set(expected_pending[step]), schedule)
-            G.release(label)
+            G.release(min(l for l in real if _base(l) == _base(label)))
         await quiesce()
         left = {l for l, f in G.pending.items() if not f.done()}
         if left or not task.done():
